@@ -54,6 +54,13 @@ def model_requests(case, obs):
 
 def make_judge(required, project, need_request_port=True, extra=None, nontrivial_port=False):
     def judge(case, obs, resps):
+        if obs.get("port_dead") and need_request_port:
+            # the thread that serves the request port ended although nobody stopped the server: it does not keep
+            # serving (C09), requests are no longer dispatched (C10), the server is neither running nor stopped (C20)
+            return Judgement(case, False, True, {"request_port_thread_ended": True, "exc": obs.get("exc"),
+                                                  "calls": obs.get("calls")},
+                             kind="port-dead/" + case.get("_meta", {}).get("style", "-"), nontrivial=True,
+                             failed_clause="request_port_thread_ended")
         if case.get("more") and "parts" in obs:
             js = [judge1(c, o, [r]) for (c, o), r in zip(parts_of(case, obs), resps)]
             bad = [j for j in js if not j.spec_ok] or [j for j in js if not j.agree]
@@ -81,6 +88,12 @@ def make_judge(required, project, need_request_port=True, extra=None, nontrivial
         agree, detail = True, None
         if need_request_port and not ok_port:
             agree, detail = False, {"request_port": port_detail}
+        if need_request_port and not ok_port and v.kind in ("transfer", "error") and \
+                not port_detail["impl_main_sends"] and not port_detail["impl_transfers"]:
+            # a request that must be answered (by a transfer or an ERROR) got nothing at all: the request port has
+            # stopped serving (or dropped the request)
+            spec_ok, clause = False, "request_unanswered"
+            detail = {"failed_checker": "request_unanswered", "request_port": port_detail}
         if need_request_port and "reqport" in required and v.m.get("reqport_impl") is False:
             spec_ok, clause = False, "reqport"
             detail = {"failed_checker": "reqport", "request_port": port_detail}
